@@ -258,7 +258,7 @@ PROPS["C10"] = {
              "(D=8 quick, D=12 thorough; stateless search, each schedule re-executed from scratch). random: 2-3 processes, rapid-drawn schedules of up to 40 decisions, <=2 crashes, <=1 cancel, optional warm-up that lets one process reach the critical section first. "
              "Oracles: never two live processes between Lock()==nil and Unlock(); Lock never returns an error; while one process holds, a newcomer given 12 steps does not acquire; after the schedule the survivors finish under round-robin stepping and each acquires; a fresh process then acquires within 60 steps. "
              "binary: 2-3 real `grog build //...` processes in one generated workspace (slow commands, 1-4 workers) started at generated offsets, one third of them killed (SIGKILL to the process group) or interrupted (SIGINT) after 100-1500 ms; every command appends its grog's pid to a trace. "
-             "Oracles: no command of one grog process starts between the start and the end line of a command of another (append order, no clock); a process that was not signalled finishes by itself with exit 0; a further build afterwards succeeds with byte-exact outputs. "
+             "Oracles: no command of one grog process starts between the start and the end line of a command of another (append order, no clock); a process that was not signalled finishes by itself with exit 0; a further build afterwards succeeds with byte-exact outputs. One case in six is the orphan scenario: the holder alone (not its process group) is killed 0-1000 ms after its command, which sleeps 9 s, has started; a new build of another target must finish within 5 s. "
              "Non-trivial = a process observed the lock file between another's create and PID write, or removed it after it changed, or a holder/contender crashed, or a waiter was cancelled; binary: at least two processes and commands were executed; distinct by full case."),
     "assumptions": [
         "the controller serialises steps: file-system calls are atomic and never truly simultaneous (the property's own quantifier is over interleavings of individual file-system operations)",
